@@ -13,12 +13,12 @@ import (
 // C11: matrix inversion / row reduction / product over GF(2^16).
 
 type c11Case struct {
-	Kind string `json:"kind"`
-	N    int    `json:"n"`
-	Lo   int64  `json:"lo,omitempty"`
-	Hi   int64  `json:"hi,omitempty"`
-	A    []int  `json:"alphabet,omitempty"`
-	NoSSSE3 bool `json:"nossse3,omitempty"` // run with the SSSE3 dispatch flag forced off (the row kernels then take the scalar path)
+	Kind    string `json:"kind"`
+	N       int    `json:"n"`
+	Lo      int64  `json:"lo,omitempty"`
+	Hi      int64  `json:"hi,omitempty"`
+	A       []int  `json:"alphabet,omitempty"`
+	NoSSSE3 bool   `json:"nossse3,omitempty"` // run with the SSSE3 dispatch flag forced off (the row kernels then take the scalar path)
 }
 
 func toG(m lin.M) gf2p16.Matrix {
